@@ -8,6 +8,17 @@ PY = '/venv/bin/python'
 
 # property -> (category, level text, level note, technique, design ref)
 CLAIMED = {
+    'C03': ('other',
+            'Static rules plus an exhaustive tabulation of the transition function of every loop in Tokenizer._get_token / _handle_comment / '
+            '_handle_string over a finite abstraction (alphabet partition = every character the code mentions + OTHER + EOF; the 7 option flags, '
+            'branched lazily; loop-carried state computed as a fixed point). From the table: no double rewind, every continuing iteration consumes '
+            '>= 1 character net (linear step bound), EOF exits every loop, no Python-level exception (KeyError/TypeError on None) can escape, only '
+            'self.error(...) is raised, line numbers move only on line breaks, every return is a (Token, text) pair. Chunk independence is the '
+            'who-may-touch rule K1: only __init__/_next_char touch the chunk cursor, everything else rewinds by exactly one.',
+            'Trusted: CPython ast, engine/abseval.py (the evaluator covers only the statement/expression subset the tokenizer uses and fails '
+            'closed on anything else), constant folder. The Cython tokenizer is checked for cursor encapsulation only (K8).',
+            'static: who-may-touch rule + finite-domain abstract interpretation (transition tabulation) of the tokenizer loops + raise-site enumeration',
+            'DESIGN.md section 3, C03'),
     'C01': ('other',
             'Repository-specific static rules decide the structural clauses of the round trip on every path of the writers and the reader '
             'configuration: escape discipline of every quoted slot on both write paths (leaf, block header), independence of the token stream '
